@@ -598,7 +598,7 @@ func executeEch(t *testing.T, prop string, seed uint64, p *EchPlan) *core.Result
 			resolverFault = true
 		}
 	}
-	judgeEch(res, prop, p, es, caller, before, retConn, retErr, retSeq, retT, len(up.queries), resolverFault)
+	judgeEch(res, prop, p, es, caller, before, retConn, retErr, retSeq, retT, len(up.queries), resolverFault || len(p.Zone.Fail) > 0)
 	return res
 }
 
@@ -808,7 +808,7 @@ func judgeEch(res *core.Result, prop string, p *EchPlan, es *echState, caller, b
 	if p.RequireECH && cl == nil && p.PublicName == "" {
 		for _, m := range models {
 			for _, owner := range m.own {
-				if owner == nil || owner.ECH == 0 {
+				if owner == nil || owner.ECH <= 0 {
 					refusalPossible = true
 				}
 			}
